@@ -552,7 +552,6 @@ pub fn decode_sgr_items(data: &[u8]) -> Vec<vcore::gen::Item> {
             }
         }
     }
-    vcore::gen::drop_underline_replacements(&mut items);
     items
 }
 
